@@ -63,6 +63,12 @@ func dev(args []string) {
 	res := vc.SolveAll(obls, *work, *secs, false, 8)
 	bad := 0
 	for _, r := range res {
+		if r.O.Advisory {
+			if r.Status == "cover-vacuous" {
+				fmt.Printf("DEAD code at %[2]s: %[1]s (unreachable under the assumptions: dead code or contradictory assumptions)\n", r.O.Name, r.O.Pos)
+			}
+			continue
+		}
 		mark := "ok "
 		if r.Status != "discharged" && r.Status != "cover-ok" {
 			mark = "BAD"
